@@ -1862,7 +1862,13 @@ size_t rtosc_scan_arg_val(const char* src,
                         case 'i':
                             sscanf(src, fmtstr, &arg->val.i, &rd); break;
                         case 'f':
-                            sscanf(src, fmtstr, &arg->val.f, &rd); break;
+                            // the exact value of a double is written without
+                            // the 'd' suffix: "0.81d (0x1.9eb851eb851ecp-1)"
+                            if(arg->type == 'd')
+                                sscanf(src, "%lf%n", &arg->val.d, &rd);
+                            else
+                                sscanf(src, fmtstr, &arg->val.f, &rd);
+                            break;
                         case 'd':
                             sscanf(src, fmtstr, &arg->val.d, &rd); break;
                     }
